@@ -198,9 +198,12 @@ PROPS = {
         "groups": [{"name": "C19", "quick": 3000, "thorough": 60000},
                    {"name": "C19x", "quick": 4000, "thorough": 16777216, "workers": 16},
                    # processes started with the smallest accepted sizes, then used: fetches under cache_size = 1 and 2
-                   {"name": "C03", "quick": 120, "thorough": 4000, "workers": 4, "config": "[network]\ncache_size = 1\n"},
-                   {"name": "C03", "quick": 120, "thorough": 4000, "workers": 4, "config": "[network]\ncache_size = 2\npreload_amount = 0\ntimeout_seconds = 0\n"}],
-        "rule": "hexToAnsi on valid, near-valid (one bad digit, signs, underscores, wrong length, non-ASCII digits) and random strings; configuration files generated value-first (colours, preload_amount/timeout_seconds/cache_size from {-1000..1000}, hooks of 0..3 arguments, unknown keys/tables, syntax errors, missing file) "
+                   {"name": "C03", "quick": 120, "thorough": 4000, "workers": 4, "config": "[network]\ncache_size = 1\ntimeout_seconds = 9223372036\n"},
+                   {"name": "C03", "quick": 120, "thorough": 4000, "workers": 4, "config": "[network]\ncache_size = 2\npreload_amount = 0\ntimeout_seconds = 0\n"},
+                   # ... and the interface under the largest accepted sizes, and with nothing preloaded
+                   {"name": "C07", "quick": 24, "thorough": 400, "workers": 8, "config": "[network]\npreload_amount = 2147483647\ncache_size = 9223372036854775807\n"},
+                   {"name": "C07", "quick": 24, "thorough": 400, "workers": 8, "config": "[network]\npreload_amount = 0\ncache_size = 1\n"}],
+        "rule": "hexToAnsi on valid, near-valid (one bad digit, signs, underscores, wrong length, non-ASCII digits) and random strings; configuration files generated value-first (colours, preload_amount/timeout_seconds/cache_size from {-1000..1000} and from the edges of int32, of a duration in seconds and of int64, key names in other letter cases, values of other TOML types (durations as strings, floats, booleans, hex/octal/underscored integers, inline tables, dotted keys: the model starts from what the decoder produced), hooks of 0..3 arguments, unknown keys/tables, syntax errors, missing file) "
                 "then serialised to TOML and loaded by the real parse+postprocess; C19x walks the 16^6 colour space (a stride sample in quick, all of it in thorough); non-trivial = colour accepted / configuration not rejected by TOML itself; distinct by op content",
         "trusted": ["BurntSushi/toml decoding (the model starts from the decoded values; TOML-level rejections are the generator's ground truth)",
                     "strconv.ParseUint(.,16,0) on two bytes and strconv.Itoa as modelled"],
@@ -340,7 +343,7 @@ MANIFEST_TEXT = {
         "technique": "Lean 4 proof (refinement to zipper / two-sided sequence by induction over operations) over a model proved equal to the Lean translation of the Go source regenerated on every run + differential correspondence",
     },
     "C19": {
-        "text": "Lean theorems for all strings and all decoded configurations: hexToAnsi accepts exactly '#' + six hex digits and yields three decimal components 0..255; an accepted configuration satisfies Config.Safe (non-empty hook, cache >= 1, preload/timeout >= 0, well-formed colours), a rejected one names an invalid key, valid ones are accepted, the defaults are safe. Tied to config.go by differential correspondence through a package-internal shim on generated TOML files; colour well-formedness is also checked on every implementation output; thorough walks all 16^6 colours.",
+        "text": "Lean theorems for all strings and all decoded configurations: hexToAnsi accepts exactly '#' + six hex digits and yields three decimal components 0..255; an accepted configuration satisfies Config.Safe (non-empty hook, cache >= 1, 0 <= preload <= MaxInt32, timeout >= 0 and converted to nanoseconds in wrapping int64 arithmetic without wrap-around, well-formed colours), a rejected one names an invalid key, valid ones are accepted, the defaults are safe. Tied to config.go by differential correspondence through a package-internal shim on generated TOML files; colour well-formedness is also checked on every implementation output; thorough walks all 16^6 colours.",
         "design_ref": "DESIGN.md §5 C19",
         "note": "Trusted: Lean kernel; correspondence check (testing); TOML decoding; strconv as modelled.",
         "technique": "Lean 4 proof (character-level case analysis) + differential correspondence, exhaustive colour space in thorough",
